@@ -263,7 +263,11 @@ func (x *Exec) loopLocs(st *State, l *Loop) []loopLoc {
 				continue
 			}
 			key := map[string]string{"written": ghBuf, "sent": ghSent, "recvd": ghRecvd, "closed": ghClosed, "content": ghRd}[e.Name]
-			out = append(out, loopLoc{key, at.T})
+			loc := at.T
+			if e.Name == "written" {
+				loc = x.bufKeyT(st, loc, at.Ty)
+			}
+			out = append(out, loopLoc{key, loc})
 		case e.Kind == "sel":
 			base := env.eval(e.Args[0])
 			if env.err != nil || base.Ty == nil {
@@ -854,6 +858,10 @@ func (x *Exec) concat(st *State, a, b *Term) *Term {
 	}
 	if b.Key() == strEmpty.Key() {
 		return a
+	}
+	if a.Op == "sconcat" {
+		// canonical right-nested form, so that associativity needs no axiom
+		return x.concat(st, a.Args[0], x.concat(st, a.Args[1], b))
 	}
 	c := App("sconcat", SStr, a, b)
 	st.add(Eq(App("slen", SInt, c), Add(App("slen", SInt, a), App("slen", SInt, b))))
